@@ -257,7 +257,14 @@ pub fn run(ctx: &mut Ctx) {
                 ctx.count("wrapper-child+tail-cut-short");
                 break;
             }
-            let picks: Vec<usize> = if quick { vec![ks[(rank / n) as usize % 6], ks[2 + (rank / n) as usize % 4]] } else { ks.to_vec() };
+            // thorough: every K, and for a tenth of the templates two larger ones
+            let picks: Vec<usize> = if quick {
+                vec![ks[(rank / n) as usize % 6], ks[2 + (rank / n) as usize % 4]]
+            } else if (rank / n) % 10 == 0 {
+                ks.iter().cloned().chain([257usize, 1030]).collect()
+            } else {
+                ks.to_vec()
+            };
             for k in picks {
                 let mut t = s.clone();
                 for j in 0..k {
